@@ -135,6 +135,11 @@ func cmdCheck(args []string) int {
 			defer wg.Done()
 			fsem <- struct{}{}
 			defer func() { <-fsem }()
+			defer func() {
+				if r := recover(); r != nil {
+					results[i] = &FnResult{Key: k, Display: k, Errors: []string{fmt.Sprintf("the verifier could not process this function: %v", r)}}
+				}
+			}()
 			results[i] = verifyFunction(P, k, opts)
 		}(i, k)
 	}
@@ -144,6 +149,11 @@ func cmdCheck(args []string) int {
 			defer wg.Done()
 			fsem <- struct{}{}
 			defer func() { <-fsem }()
+			defer func() {
+				if r := recover(); r != nil {
+					results[len(cfg.Functions)+i] = &FnResult{Key: "lemma " + l, Display: "lemma." + l, Errors: []string{fmt.Sprintf("the verifier could not process this lemma: %v", r)}}
+				}
+			}()
 			results[len(cfg.Functions)+i] = verifyLemma(P, l, opts)
 		}(i, l)
 	}
